@@ -273,25 +273,47 @@ def txn_field(t: dict, f: str, idx=None):
     raise Unsupported(f"txn field {f}")
 
 
+class Machine:
+    """Mutable AVM state; `run` executes whole programs, `apply` a single non-branching op (used by exprsem)."""
+
+    def __init__(self, ctx: Ctx | None = None):
+        self.ctx = ctx or Ctx()
+        self.res = Result("fail")
+        self.stack: list = []
+        self.scratch: dict = {}
+        self.callstack: list = []
+        self.intc: list = []
+        self.bytec: list = []
+        self.itx = {"cur": None, "group": []}
+
+    def apply(self, mnemonic, immediates=()):
+        """Execute one op on the current stack. Raises Panic on failure; returns 'approve'/'reject' for `return`."""
+        prog = Program(10, [(mnemonic, [str(x) for x in immediates], 0)], {})
+        r = _exec(self, prog, single=True)
+        if r == "panic":
+            raise Panic(self.res.detail)
+        return r
+
+
 def run(teal: str, ctx: Ctx | None = None, trace=False) -> Result:
-    ctx = ctx or Ctx()
-    res = Result("fail")
+    m = Machine(ctx)
     try:
         prog = parse(teal)
     except (ValueError, IndexError) as e:
-        res.detail = f"assembly error: {e}"
-        res.verdict = "asmerror"
-        return res
+        m.res.detail = f"assembly error: {e}"
+        m.res.verdict = "asmerror"
+        return m.res
+    _exec(m, prog, trace=trace)
+    return m.res
+
+
+def _exec(M: Machine, prog: Program, single=False, trace=False):
+    ctx, res = M.ctx, M.res
     ops, labels = prog.ops, prog.labels
-    stack: list = []
-    scratch: dict = {}
-    callstack: list = []  # (return pc, frame pointer, proto args, proto rets) ; fp None when no proto
-    intc: list = []
-    bytec: list = []
-    itxn_cur = None
-    itxn_group: list = []
+    stack, scratch, callstack, intc, bytec, itx = M.stack, M.scratch, M.callstack, M.intc, M.bytec, M.itx
     pc = 0
     steps = 0
+    status = None
     cur_txn = ctx.txn if ctx.txn else (ctx.gtxn[0] if ctx.gtxn else {})
     group = ctx.gtxn if ctx.gtxn else [cur_txn]
 
@@ -320,6 +342,8 @@ def run(teal: str, ctx: Ctx | None = None, trace=False) -> Result:
 
     try:
         while True:
+            if pc >= len(ops) and single:
+                break
             if pc >= len(ops):
                 # fell off the end: top of stack decides
                 if callstack:
@@ -360,9 +384,9 @@ def run(teal: str, ctx: Ctx | None = None, trace=False) -> Result:
                     raise ValueError("method needs a quoted signature")
                 push(hashlib.new("sha512_256", sig).digest()[:4])
             elif m == "intcblock":
-                intc = [parse_int_literal(t, ctx.tmpl) for t in im]
+                intc[:] = [parse_int_literal(t, ctx.tmpl) for t in im]
             elif m == "bytecblock":
-                bytec = []
+                del bytec[:]
                 j = 0
                 while j < len(im):
                     if im[j].startswith("TMPL_"):
@@ -677,6 +701,7 @@ def run(teal: str, ctx: Ctx | None = None, trace=False) -> Result:
             elif m == "return":
                 v = _u(pop())
                 res.verdict = "approve" if v != 0 else "reject"
+                status = res.verdict
                 break
             elif m == "b":
                 pc = label(im[0])
@@ -825,31 +850,33 @@ def run(teal: str, ctx: Ctx | None = None, trace=False) -> Result:
                 k = _b(pop()); a = pop(); ctx.local_state.pop((repr(a), k), None)
                 res.local_writes.append(("del", repr(a), k))
             elif m == "itxn_begin":
-                itxn_cur = []
-                itxn_group = []
+                itx["cur"] = []
+                itx["group"] = []
             elif m == "itxn_next":
-                if itxn_cur is None:
+                if itx["cur"] is None:
                     raise Panic("itxn_next without begin")
-                itxn_group.append(itxn_cur); itxn_cur = []
+                itx["group"].append(itx["cur"]); itx["cur"] = []
             elif m == "itxn_field":
-                if itxn_cur is None:
+                if itx["cur"] is None:
                     raise Panic("itxn_field without begin")
-                itxn_cur.append((im[0], pop()))
+                itx["cur"].append((im[0], pop()))
             elif m == "itxn_submit":
-                if itxn_cur is None:
+                if itx["cur"] is None:
                     raise Panic("itxn_submit without begin")
-                itxn_group.append(itxn_cur)
-                res.inner.append(itxn_group)
-                itxn_cur = None; itxn_group = []
+                itx["group"].append(itx["cur"])
+                res.inner.append(itx["group"])
+                itx["cur"] = None; itx["group"] = []
             else:
                 raise Unsupported(f"op {m}")
     except Panic as e:
         res.verdict = "fail"
         res.detail = f"{e} at line {ops[pc - 1][2] if 0 < pc <= len(ops) else '?'}: {ops[pc - 1][0] if 0 < pc <= len(ops) else ''}"
+        status = "panic"
     except ValueError as e:
         res.verdict = "asmerror"
         res.detail = f"assembly error: {e}"
+        status = "panic"
     res.final_stack = list(stack)
     res.scratch = dict(scratch)
-    res.steps = steps
-    return res
+    res.steps += steps
+    return status
